@@ -48,10 +48,11 @@ cOverlaps == %s
 ''' % (name, r('L'), starts or r('start'), ends or r('end'), r('size'), r('orphan'), r('overlap'))
 
 
-def mc_cfg(navdir, invs, props=True):
+def mc_cfg(navdir, invs, props=True, pb=False):
     return '\n'.join([
         'CONSTANTS', '  Ls <- cLs', '  Starts <- cStarts', '  Ends <- cEnds', '  Sizes <- cSizes',
         '  Orphans <- cOrphans', '  Overlaps <- cOverlaps', '  NavDir = "%s"' % navdir,
+        '  PrevBatches = %s' % ('TRUE' if pb else 'FALSE'),
         'SPECIFICATION Spec'] + ['INVARIANT ' + i for i in invs] +
         (['PROPERTY PullMonotone', 'PROPERTY ItemProgress', 'PROPERTY NavProgress'] if props else []) +
         ['CHECK_DEADLOCK FALSE', ''])
@@ -65,6 +66,7 @@ OBS_CFG = '''CONSTANTS
   Orphans = {0}
   Overlaps = {0}
   NavDir = "none"
+  PrevBatches = FALSE
 INIT OInit
 NEXT ONext
 INVARIANT Verdict
@@ -79,6 +81,7 @@ CHAIN_CFG = '''CONSTANTS
   Orphans = {0}
   Overlaps = {0}
   NavDir = "none"
+  PrevBatches = FALSE
 INIT OInit
 NEXT ONext
 INVARIANT ChainVerdicts
@@ -96,7 +99,7 @@ def _variant(i):
 
 def replay_case(item):
     i, exp = item
-    par, e, c, rows, _pulled = exp
+    par, e, c, rows, _pulled = exp[:5]
     kind, seqkind, as_str = _variant(i)
     obs = batch_obs.observe(par, kind=kind, seqkind=seqkind, as_str=as_str)
     same = obs['e'] == e and obs['c'] == c and \
